@@ -301,6 +301,34 @@ func c07Run(c *core.Ctx) {
 				}
 			}
 		}
+		// every corpus program (up to pairs of positions and sibling lists) on which a tree comes back together
+		// with errors — syntax errors of driver-invalid sentences and semantic errors reported by grammar actions
+		wideItems(f, false, func(it *corpus.Item, src, why string) {
+			if !c.Next() {
+				return
+			}
+			cs := mkCase(src, f.V, "corpus program: "+why)
+			setBlock(&cs)
+			res := drive.Parse(cs.Src, f.V, true)
+			if res.OK() && res.Root != nil && res.NErr() > 0 {
+				c.Stat("recovered", 1)
+				c.Stat("corpus_programs_with_errors_and_tree", 1)
+				c.NontrivialH(core.Hash(cs.Ver + string(cs.Src)))
+				c07Print(c, cs, res)
+			}
+		})
+		for _, src := range c01Semantic {
+			if !c.Next() {
+				continue
+			}
+			cs := mkCase(src, f.V, "program with a semantic (grammar-action) error")
+			setBlock(&cs)
+			res := drive.Parse(cs.Src, f.V, true)
+			if res.OK() && res.Root != nil && res.NErr() > 0 {
+				c.Stat("recovered", 1)
+				c07Print(c, cs, res)
+			}
+		}
 		// every driver-invalid cell program and corpus sentence that still yields a tree: print oracle
 		forCells(c, f, cellTails, func(cl cell) {
 			if cl.It.Valid {
@@ -337,7 +365,7 @@ func c07Run(c *core.Ctx) {
 func init() {
 	register(&core.Check{
 		Prop: "C07", Level: "exploration", Exhaust: true, QuickSecs: 400, ThorSecs: 3000,
-		Rule: "statement lists S1 [S2 [S3]] over every statement form of the rule-level corpus of each grammar, in six contexts (top level, function body, block, namespace body, method body, if body), with each of 16 malformed statements (built from tokens that cannot continue a preceding statement) inserted at every boundary; plus every LR error cell (3 tails) and every E-bytes input (<= 2/3 symbols, 15 contexts) on which a tree comes back together with errors. " +
+		Rule: "statement lists S1 [S2 [S3]] over every statement form of the rule-level corpus of each grammar, in six contexts (top level, function body, block, namespace body, method body, if body), with each of 16 malformed statements (built from tokens that cannot continue a preceding statement) inserted at every boundary; plus every corpus program and grammar-action error program that yields a tree together with errors, every LR error cell (3 tails) and every E-bytes input (<= 2/3 symbols, 15 contexts) on which a tree comes back together with errors. " +
 			"Oracle when errors were reported and a tree returned: (1) the statement list of that level starts with the trees of the statements before the error, identical in kinds, values, tokens and positions to parsing `<?php ctx S1…Si` alone; (2) the root has its end token (parsing continued to the end); (3) every token of the tree holds the source bytes at its offsets, offsets increase in print order without overlap, and the printed bytes are exactly those tokens in that order plus printer glue (blank, open/close tag). non-trivial = recovered parse; distinct by (version, source)",
 		Assume: []string{"which statements after the malformed one survive is not demanded"},
 		Run:    c07Run,
